@@ -46,9 +46,9 @@ Definition same_set (a b : list Z) :=
   forallb (fun x => memz x b) a && forallb (fun x => memz x a) b && Nat.eqb (length a) (length b).
 
 Record case := mk_case {
-  c_manual : bool; c_prog : prog; c_extra : list bool; c_cfg : cfg; c_fault : option nat;
+  c_manual : bool; c_prog : prog; c_extra : list bool; c_stray : list bool; c_cfg : cfg; c_fault : option nat;
   (* observed *)
-  o_top : obs; o_extra : list cls; o_table : list Z; o_in_use : Z; o_open_tx : Z;
+  o_top : obs; o_extra : list cls; o_stray : list cls; o_table : list Z; o_in_use : Z; o_open_tx : Z;
   o_ops : list (opkind * bool)
 }.
 
@@ -57,6 +57,7 @@ Definition model_agrees (c : case) : bool :=
   scoped [] (c_prog c)    (* the generator's contract: the program is in the domain of the theorems *)
   && obs_eqb o (o_top c)
   && list_eqb cls_eqb x (o_extra c)
+  && list_eqb cls_eqb (run_stray (c_stray c)) (o_stray c)
   && same_set (s_db s) (o_table c)
   && list_eqb op_eqb (rev (s_ops s)) (o_ops c)
   && (fst (pool ref_env (rev (s_txlog s))) =? o_in_use c)
